@@ -153,3 +153,19 @@ pub fn standard(quick: bool, scale: i32) -> Vec<Slice> {
     });
     v
 }
+
+/// The small corpus (C12, and the per-case expensive checks): size <= 2 in all frames,
+/// size 3 in the plain frames, redex slices with the short term list.
+pub fn small(quick: bool) -> Vec<Slice> {
+    let leaves = gram::all_leaves();
+    let unary = gram::all_unary();
+    let by = gram::bodies_by_size(&leaves, &unary, 3);
+    let upto2: Vec<String> = by.iter().take(3).flatten().cloned().collect();
+    let mut v = vec![];
+    v.push(Slice { name: "size<=2/all-frames".into(), frames: gram::frames(true, true), bodies: Rc::new(upto2), len: if quick { 3 } else { 4 }, len4: 3, extra_rules: "" });
+    let plain: Vec<Frame> = gram::frames(false, false).into_iter().filter(|f| (f.ws <= 1 && f.sdef == 0) || (f.ws == 0 && f.ty == 0) || !quick).collect();
+    v.push(Slice { name: "size3/plain-frames".into(), frames: plain, bodies: Rc::new(by[3].clone()), len: if quick { 3 } else { 4 }, len4: 3, extra_rules: "" });
+    let redex: Vec<String> = gram::redex_bodies(if quick { 4 } else { 7 }).into_iter().map(|x| x.0).collect();
+    v.push(Slice { name: "redexes".into(), frames: gram::frames(false, false).into_iter().filter(|f| !quick || f.sdef == 0).collect(), bodies: Rc::new(redex), len: if quick { 3 } else { 4 }, len4: 3, extra_rules: gram::REDEX_EXTRA_RULES });
+    v
+}
